@@ -22,6 +22,7 @@ type KnownFinding struct {
 	Witness    string `json:"witness,omitempty"`
 	WitnessPkg string `json:"witness_pkg,omitempty"`
 	WitnessFlg string `json:"witness_flags,omitempty"`
+	WitnessTst string `json:"witness_test,omitempty"`
 	Commit     string `json:"commit,omitempty"`
 	KF         string `json:"kf,omitempty"`
 }
@@ -312,10 +313,10 @@ func cmdCheck(args []string) int {
 	if *tier == "thorough" && !*writeClaims {
 		done := map[string]bool{}
 		for _, k := range known {
-			if k.Property != *prop || k.Witness == "" || done[k.Witness] {
+			if k.Property != *prop || k.Witness == "" || done[k.Witness+"#"+k.WitnessTst] {
 				continue
 			}
-			done[k.Witness] = true
+			done[k.Witness+"#"+k.WitnessTst] = true
 			pass, out := runWitness(*repo, k)
 			switch {
 			case k.Status == "fixed" && !pass:
@@ -427,6 +428,9 @@ func runWitness(repo string, k KnownFinding) (bool, string) {
 	name := "TestVerif"
 	if m := regexp.MustCompile(`func (TestVerif\w+)\(`).FindSubmatch(b); m != nil {
 		name = string(m[1])
+	}
+	if k.WitnessTst != "" {
+		name = k.WitnessTst
 	}
 	args := []string{"test", "-overlay", ovPath, "-vet=off", "-count=1", "-timeout", "300s", "-run", "^" + name + "$"}
 	if k.WitnessFlg != "" {
